@@ -222,24 +222,43 @@ theorem pw_threaded : ∀ (b : KBox) (f : Bool), IC b →
         exact this
     · subst htext
       simp only [ht, Bool.false_eq_true, if_false]
-      have := pwKids_threaded kids f (KBox.mk k st el inst [] kids cols).inFlow hkids hfl
+      have := pwKids_threaded kids f hkids
       simp only [hrun, Bool.not_false, Bool.and_true, leafText, List.nil_append]
       exact this
-theorem pwKids_threaded : ∀ (kids : List KBox) (f : Bool) (boxInFlow : Bool), ICL kids → boxInFlow = true →
-    Threaded f (leafTextL (pwKids boxInFlow kids f).1) (pwKids boxInFlow kids f).2
-  | [], f, _, _, _ => by simpa [pwKids, leafTextL] using threaded_nil f
-  | c :: cs, f, bf, h, hbf => by
+theorem pwKids_threaded : ∀ (kids : List KBox) (f : Bool), ICL kids →
+    Threaded f (leafTextL (pwKids kids f).1) (pwKids kids f).2
+  | [], f, _ => by simpa [pwKids, leafTextL] using threaded_nil f
+  | c :: cs, f, h => by
     unfold ICL at h
     obtain ⟨hfl, _, hkind⟩ := ic_inFlow h.1
     have hc : (Gen.isSub c.kind .TextBox || Gen.isSub c.kind .InlineBox) = true := by
       simp only [KBox.isA] at hkind
       rcases hkind with h1 | h1 <;> simp [h1]
     unfold pwKids
-    simp only [hc, if_true, hbf, hfl, Bool.and_self]
+    simp only [hc, if_true, hfl]
     have h1 := pw_threaded c f h.1
-    have h2 := pwKids_threaded cs (pw c f).2 true h.2 rfl
+    have h2 := pwKids_threaded cs (pw c f).2 h.2
     simp only [leafTextL]
     exact threaded_append f _ _ _ _ h1 h2
 end
+
+/-- The inline content of *any* container — a block, a float, an absolutely positioned or running box, a
+cell …: the box is not a text box and its children are inline content in normal flow (`ICL`).  Nothing is
+asked of the box's own `float` / `position` (since b7d94f7 the state is handed from child to child
+whatever the container is). -/
+def IFC (b : KBox) : Prop := b.isA .TextBox = false ∧ b.text = [] ∧ ICL b.kids
+
+theorem pw_ifc (b : KBox) (f : Bool) (h : IFC b) :
+    Threaded f (leafText (pw b f).1) ((pwKids b.kids f).2) ∧ (pw b f).2 = ((pwKids b.kids f).2 && !b.st.run) := by
+  obtain ⟨k, st, el, inst, text, kids, cols⟩ := b
+  obtain ⟨ht, htext, hkids⟩ := h
+  simp only [KBox.isA, KBox.kind] at ht
+  simp only [KBox.text] at htext
+  simp only [KBox.kids] at hkids
+  subst htext
+  have := pwKids_threaded kids f hkids
+  unfold pw
+  simp only [ht, Bool.false_eq_true, if_false, leafText, List.nil_append, KBox.kids, KBox.st]
+  exact ⟨this, trivial⟩
 
 end Wp.Bx
